@@ -723,3 +723,30 @@ Qed.
 Lemma route_without_constructor_refuted : forall q keep x o0,
   enter_via [] q keep (InObj x o0) = StoredRaw (InObj x o0).
 Proof. reflexivity. Qed.
+
+(* ------------------------------------------------------------------ field-wise construction, replace(tzinfo=None) *)
+Theorem dt_of_fields_aware : forall x d, dt_of_fields x = Some d ->
+  aware d /\ wall d = wall x /\ (off x = None -> off d = Some 0) /\ (forall z, off x = Some z -> off d = Some z).
+Proof.
+  intros x d H. unfold dt_of_fields in H. destruct (validb x); [|discriminate]. injection H as <-.
+  split; [apply coerce_off|]. split; [apply coerce_wall|]. split.
+  - intros Hn. apply (coerce_naive x Hn).
+  - intros z Hz. unfold coerce. rewrite Hz. exact Hz.
+Qed.
+
+Lemma strip_off_valid : forall d, valid d -> valid (strip_off d).
+Proof.
+  intros d H. unfold valid, validb, strip_off in *. cbn [yr mo dy hh mi ss us off].
+  repeat rewrite andb_true_iff in *. cbn [valid_off]. tauto.
+Qed.
+
+Theorem replace_none_constructed : forall d, valid d ->
+  replace_tzinfo_none false d = Some (coerce (strip_off d)) /\ off (coerce (strip_off d)) = Some 0
+  /\ wall (coerce (strip_off d)) = wall d.
+Proof.
+  intros d Hv. unfold replace_tzinfo_none. rewrite (dt_of_fields_valid _ (strip_off_valid d Hv)).
+  split; [reflexivity|]. split; reflexivity.
+Qed.
+
+Lemma replace_none_bypass_refuted : forall d, exists r, replace_tzinfo_none true d = Some r /\ off r = None.
+Proof. intros d. exists (strip_off d). split; reflexivity. Qed.
